@@ -199,12 +199,20 @@ class Charge:
         charge_pos_ver = self.get_frame_values(quantity="position_ver")
         charge_pos_hor = self.get_frame_values(quantity="position_hor")
 
-        pixel_index_ver = np.floor_divide(
-            charge_pos_ver, self._geo.pixel_vert_size
-        ).astype(int)
-        pixel_index_hor = np.floor_divide(
-            charge_pos_hor, self._geo.pixel_horz_size
-        ).astype(int)
+        index_ver = np.floor_divide(charge_pos_ver, self._geo.pixel_vert_size)
+        index_hor = np.floor_divide(charge_pos_hor, self._geo.pixel_horz_size)
+
+        # Charges outside the sensitive area (or at a non-finite position) are not
+        # collected by any pixel
+        inside = (
+            (index_ver >= 0)
+            & (index_ver < self._geo.row)
+            & (index_hor >= 0)
+            & (index_hor < self._geo.col)
+        )
+        charge_per_pixel = charge_per_pixel[inside]
+        pixel_index_ver = index_ver[inside].astype(int)
+        pixel_index_hor = index_hor[inside].astype(int)
 
         # Changing = to += since charge dataframe is reset, the pixel array need to be
         # incremented, we can't do the whole operation on each iteration
